@@ -1000,4 +1000,189 @@ Section Inv.
       destruct (sl_tx_gone (slotv (slots s) (c_id c))) eqn:Et; [discriminate|].
       destruct AW as [AW|AW]; congruence.
   Qed.
+
+  (* ---------------------------------------------------------------- ResponseGuard::drop *)
+  Lemma set_phase_slot_comm s id i p :
+    set_phase (slot_rx_close (slot_tx_drop s id) id) i p =
+    slot_rx_close (slot_tx_drop (set_phase s i p) id) id.
+  Proof. rewrite !set_phase_alt. reflexivity. Qed.
+
+  Lemma Inv_unwait s i :
+    phl (calls s) i = Some PAcquiring -> Inv s ->
+    Inv (set_phase (upd_q s (permits s) (queue s) (remove_waiter i (waiters s)) (rx_closed s)) i PClosing).
+  Proof.
+    intros H0 [[] Ids AW SE DD]. rewrite set_phase_alt. unfold remove_waiter.
+    constructor; [constructor|..]; norm_state.
+    - intros j. vw. destruct (Nat.eqb i j) eqn:E.
+      + rewrite (proj1 (Nat.eqb_eq _ _) E) in H0. rewrite H0. cbn. discriminate.
+      + intro H. apply filter_In. split; [apply i_wa0, H|]. rewrite Nat.eqb_sym, E. reflexivity.
+    - intros j Hj. apply filter_In in Hj. destruct Hj as [Hj Hn]. vw.
+      rewrite Nat.eqb_sym in Hn. destruct (Nat.eqb i j); [discriminate|]. apply i_wb0, Hj.
+    - apply NoDup_filter, i_wc0.
+    - intro H. rewrite (i_wd0 H). reflexivity.
+    - eapply IdInv_phase; [..|exact Ids]; try reflexivity; [exact H0|].
+      intros _. apply fresh_for_active; [exact Ids|]. rewrite H0. reflexivity.
+    - intros j. vw. destruct (Nat.eqb i j) eqn:E; [|apply AW].
+      rewrite (proj1 (Nat.eqb_eq _ _) E) in H0. rewrite H0. cbn. discriminate.
+    - exact SE.
+    - exact DD.
+  Qed.
+
+  Lemma Inv_guard_close s i : Inv s -> Inv (guard_close s i).
+  Proof.
+    intro I. unfold guard_close. destruct (nth_error (calls s) i) as [c|] eqn:Ec; [|exact I].
+    pose proof (phl_nth _ _ _ Ec) as Hph.
+    destruct (c_phase c) eqn:Ep; try exact I.
+    - apply (InvX_set_phase [] s i PGone PNew); try assumption; discriminate.
+    - rewrite set_phase_slot_comm. apply InvX_slot_rx_close, InvX_slot_tx_drop, Inv_unwait; assumption.
+    - apply InvX_slot_rx_close, InvX_slot_tx_drop.
+      assert (I1 : Inv (set_phase s i PClosing)).
+      { apply (InvX_set_phase [] s i PClosing PAssigned); try assumption; try discriminate.
+        intros _. apply fresh_for_active; [apply I|]. rewrite Hph. reflexivity. }
+      destruct (rx_closed (set_phase s i PClosing)) eqn:Erx.
+      + eapply InvX_vframe; [|exact I1]. constructor; try reflexivity. cbn. symmetry; exact Erx.
+      + apply InvX_release_permit, I1.
+    - assert (I1 : Inv (slot_rx_close (slot_tx_drop s (c_id c)) (c_id c)))
+        by apply InvX_slot_rx_close, InvX_slot_tx_drop, I.
+      apply (InvX_set_phase [] _ i PClosing PAcqClosed); try assumption; try discriminate.
+      intros _. apply fresh_for_active; [apply I1|]. change (actph (phl (calls s) i) = true).
+      rewrite Hph. reflexivity.
+    - assert (I1 : Inv (slot_rx_close s (c_id c))) by apply InvX_slot_rx_close, I.
+      apply (InvX_set_phase [] _ i PClosing PAwaiting); try assumption; try discriminate.
+      intros _. apply fresh_for_active; [apply I1|]. change (actph (phl (calls s) i) = true).
+      rewrite Hph. reflexivity.
+  Qed.
+
+  Lemma Inv_guard_cancel s i : Inv s -> Inv (guard_cancel s i).
+  Proof.
+    intro I. unfold guard_cancel. destruct (nth_error (calls s) i) as [c|] eqn:Ec; [|exact I].
+    pose proof (phl_nth _ _ _ Ec) as Hph. pose proof (idl_nth _ _ _ Ec) as Hid.
+    destruct (c_phase c) eqn:Ep; try exact I.
+    pose proof (fresh_for_active s i (i_ids _ _ I)) as F. rewrite Hph in F. specialize (F eq_refl).
+    apply (InvX_retire [] s i PGone PClosing (c_id c)); try assumption; try discriminate; try reflexivity.
+    - rewrite <- Hid. apply F.
+    - intros j Hn Hj. rewrite <- Hid. apply F; assumption.
+  Qed.
+
+  (* ---------------------------------------------------------------- the dispatch poll *)
+  Lemma alive_upd_term s t : alive s -> alive (upd_term s t).
+  Proof. exact (fun H => H). Qed.
+
+  Lemma poll_dispatch_spec f s r s' :
+    poll_dispatch tp f s = (r, s') -> alive s -> Inv s ->
+    Inv s' /\ alive s' /\
+    (forall a, r = DReady (DErr a) -> rx_closed s' = true /\ queue s' = [] /\ inflight s' = []).
+  Proof.
+    unfold poll_dispatch. intros H Hal I. destruct (terminal s) as [a|] eqn:Et.
+    - destruct (shut_down s a) as [b s1] eqn:E1.
+      pose proof (PFrame_shut_down _ _ _ _ E1) as F1.
+      destruct (shut_down_spec _ _ _ _ E1 Et I) as [I1 D1].
+      assert (Hal1 : alive s1) by (eapply alive_PFrame; eassumption).
+      destruct b; injection H as <- <-; (split; [exact I1|split; [exact Hal1|]]).
+      + intros a' _. apply D1. reflexivity.
+      + intros a' [=].
+    - destruct (run_loop tp f s) as [rr s1] eqn:E1.
+      pose proof (run_loop_msteps _ _ _ _ _ E1) as M1.
+      pose proof (Inv_msteps _ _ _ M1 Hal I) as I1.
+      pose proof (msteps_PFrame _ _ _ M1) as F1.
+      assert (Hal1 : alive s1) by (eapply alive_PFrame; eassumption).
+      destruct rr as [| a | |]; try (injection H as <- <-; split; [exact I1|split; [exact Hal1|intros a' [=]]]).
+      assert (Et1 : terminal s1 = None) by (rewrite (pf_terminal _ _ F1); exact Et).
+      destruct (shut_down (upd_term s1 (Some a)) a) as [b s2] eqn:E2.
+      pose proof (PFrame_shut_down _ _ _ _ E2) as F2.
+      destruct (shut_down_spec _ _ _ _ E2 eq_refl (Inv_upd_term _ a Et1 I1)) as [I2 D2].
+      assert (Hal2 : alive s2) by (eapply alive_PFrame; [exact F2|apply alive_upd_term, Hal1]).
+      destruct b; injection H as <- <-; (split; [exact I2|split; [exact Hal2|]]).
+      + intros a' _. apply D2. reflexivity.
+      + intros a' [=].
+  Qed.
+
+  (* ---------------------------------------------------------------- every op *)
+  Variable fuel_of : cstate -> nat.
+
+  Lemma next_id_guard_close s j : next_id (guard_close s j) = next_id s.
+  Proof.
+    unfold guard_close. destruct (nth_error (calls s) j) as [c|]; [|reflexivity].
+    destruct (c_phase c); try reflexivity; rewrite ?set_phase_alt; try reflexivity.
+    destruct (rx_closed _); [reflexivity|].
+    unfold slot_rx_close, slot_tx_drop, set_slot. cbn [next_id upd_slots].
+    rewrite (pf_nid _ _ (if_p _ _ (IFrame_release_permit _))). reflexivity.
+  Qed.
+  Lemma next_id_guard_cancel s j : next_id (guard_cancel s j) = next_id s.
+  Proof.
+    unfold guard_cancel. destruct (nth_error (calls s) j) as [c|]; [|reflexivity].
+    destruct (c_phase c); try reflexivity. rewrite set_phase_alt, push_cancel_alt. reflexivity.
+  Qed.
+
+  Lemma Inv_step s o s1 l :
+    step tp fuel_of s o = (s1, l) -> next_id s + 1 < two64 -> Inv s ->
+    Inv s1 /\ next_id s1 <= next_id s + 1.
+  Proof.
+    destruct o as [h|h|h d tid smp body|i|i|i|i| | |dt|f]; cbn [step].
+    - intros [= <- <-] Hw I. destruct (nth_error (handles s) h) as [[|]|]; (split; [|cbn; lia]);
+        try exact I. eapply InvX_vframe; [|exact I]. constructor; reflexivity.
+    - intros [= <- <-] Hw I. destruct (nth_error (handles s) h) as [[|]|]; (split; [|cbn; lia]);
+        try exact I. eapply InvX_vframe; [|exact I]. constructor; reflexivity.
+    - intros [= <- <-] Hw [[] Ids AW SE DD]. split; [|cbn; lia].
+      set (c := {| c_handle := h |}).
+      assert (Hc : c_phase c = PNew \/ c_phase c = PGone).
+      { cbn. destruct (nth_error (handles s) h) as [[|]|]; tauto. }
+      assert (HA : forall j, actph (phl (calls s ++ [c]) j) = true ->
+                   actph (phl (calls s) j) = true /\ idl (calls s ++ [c]) j = idl (calls s) j).
+      { intros j. rewrite phl_app, idl_app. destruct (Nat.eqb j (length (calls s))); [|tauto].
+        cbn [actph]. destruct Hc as [-> | ->]; discriminate. }
+      constructor; [constructor|..]; norm_state; try assumption.
+      + intros j. rewrite phl_app. destruct (Nat.eqb j (length (calls s))); [|apply i_wa0].
+        destruct Hc as [-> | ->]; discriminate.
+      + intros j Hj. rewrite phl_app. pose proof (i_wb0 j Hj) as H. pose proof (phl_Some_lt _ _ _ H).
+        destruct (Nat.eqb j (length (calls s))) eqn:E; [apply Nat.eqb_eq in E; lia|exact H].
+      + eapply IdInv_sub; [| | |exact Ids]; norm_state; [exact HA|lia|tauto].
+      + intros j. rewrite phl_app, idl_app. destruct (Nat.eqb j (length (calls s))); [|apply AW].
+        destruct Hc as [-> | ->]; discriminate.
+    - destruct (poll_call s i) as [r s'] eqn:E. intros [= <- <-] Hw I. split.
+      + eapply Inv_poll_call; eassumption.
+      + destruct (next_id_poll_call _ _ _ _ E) as [-> | ->]; [lia|].
+        rewrite N.mod_small by exact Hw. lia.
+    - intros [= <- <-] Hw I. split.
+      + destruct (option_map c_phase (nth_error (calls s) i)) as [[]|]; try exact I;
+          apply Inv_guard_cancel, Inv_guard_close, I.
+      + destruct (option_map c_phase (nth_error (calls s) i)) as [[]|];
+          rewrite ?next_id_guard_cancel, ?next_id_guard_close; lia.
+    - intros [= <- <-] Hw I. split.
+      + destruct (option_map c_phase (nth_error (calls s) i)) as [[]|]; try exact I;
+          apply Inv_guard_close, I.
+      + destruct (option_map c_phase (nth_error (calls s) i)) as [[]|];
+          rewrite ?next_id_guard_close; lia.
+    - intros [= <- <-] Hw I. split; [apply Inv_guard_cancel, I|].
+      rewrite next_id_guard_cancel. lia.
+    - destruct (finished s) as [d|] eqn:Ef; [intros [= <- <-] Hw I; split; [exact I|lia]|].
+      destruct (dropped s) eqn:Ed; [intros [= <- <-] Hw I; split; [exact I|lia]|].
+      set (s0 := upd_tr s (tr s) (fused s) []).
+      destruct (poll_dispatch tp (fuel_of s0) s0) as [r s1'] eqn:E.
+      intros [= <- <-] Hw I.
+      assert (I0 : Inv s0) by (eapply InvX_vframe; [|exact I]; constructor; reflexivity).
+      assert (Hal0 : alive s0) by (split; cbn; [exact Ed|rewrite Ef; discriminate]).
+      destruct (poll_dispatch_spec _ _ _ _ E Hal0 I0) as (I1 & Hal1 & D1).
+      assert (N1 : next_id s1' = next_id s0).
+      { revert E. unfold poll_dispatch. destruct (terminal s0) as [a|].
+        - destruct (shut_down s0 a) as [b sx] eqn:Ex. apply PFrame_shut_down in Ex.
+          destruct b; intros [= _ <-]; apply Ex.
+        - destruct (run_loop tp (fuel_of s0) s0) as [rr sx] eqn:Ex. apply PFrame_run_loop in Ex.
+          destruct rr as [|a| |]; try (intros [= _ <-]; apply Ex).
+          destruct (shut_down (upd_term sx (Some a)) a) as [b sy] eqn:Ey. apply PFrame_shut_down in Ey.
+          destruct b; intros [= _ <-]; rewrite (pf_nid _ _ Ey); apply Ex. }
+      split.
+      + eapply InvX_vframe; [constructor; reflexivity|].
+        destruct r as [d| |]; try exact I1. apply Inv_upd_fin; try assumption.
+        intros a ->. apply (D1 a eq_refl).
+      + destruct r; cbn [next_id upd_tr upd_fin]; rewrite N1; cbn; lia.
+    - intros [= <- <-] Hw I. split; [|destruct (dropped s); [lia|]].
+      + destruct (dropped s); [exact I|apply Inv_drop_dispatch, I].
+      + unfold drop_dispatch. cbn [next_id upd_fin upd_cancels upd_if upd_q].
+        rewrite (pf_nid _ _ (TFrame_P _ _ (TFrame_fold_slot_tx_drop _ _ _))).
+        rewrite (pf_nid _ _ (TFrame_P _ _ (TFrame_fold_slot_tx_drop _ _ _))).
+        rewrite (pf_nid _ _ (if_p _ _ (IFrame_q_close s))). lia.
+    - intros [= <- <-] Hw I. split; [|cbn; lia]. eapply InvX_vframe; [|exact I]. constructor; reflexivity.
+    - intros [= <- <-] Hw I. split; [|cbn; lia]. eapply InvX_vframe; [|exact I]. constructor; reflexivity.
+  Qed.
 End Inv.
